@@ -64,14 +64,23 @@ func (core *JApiCore) next(lexeme scanner.Lexeme) *jerr.JApiError {
 		return core.processParameter(lexeme)
 
 	case scanner.Annotation:
+		if core.currentDirective == nil {
+			return core.noDirectiveError(lexeme)
+		}
 		core.processAnnotation(lexeme)
 		return nil
 
 	case scanner.Schema, scanner.Text, scanner.Json, scanner.Enum:
+		if core.currentDirective == nil {
+			return core.noDirectiveError(lexeme)
+		}
 		core.processBody(lexeme)
 		return nil
 
 	case scanner.ContextExplicitOpening:
+		if core.currentDirective == nil {
+			return core.noDirectiveError(lexeme)
+		}
 		core.processContextBegin()
 		return nil
 
@@ -98,7 +107,18 @@ func (core *JApiCore) processKeyword(lexeme scanner.Lexeme) *jerr.JApiError {
 	return core.setCurrentDirective(keyword, coords)
 }
 
+// noDirectiveError is returned for a lexeme which belongs to a directive when
+// there is no directive being read: a parenthesis right after a closing
+// parenthesis or at the beginning of a file, anything left on the line of an
+// INCLUDE after the file name.
+func (core *JApiCore) noDirectiveError(lexeme scanner.Lexeme) *jerr.JApiError {
+	return core.japiError("there is no directive for the "+lexeme.Type().String(), lexeme.Begin())
+}
+
 func (core *JApiCore) processParameter(lexeme scanner.Lexeme) *jerr.JApiError {
+	if core.currentDirective == nil {
+		return core.noDirectiveError(lexeme)
+	}
 	if err := core.currentDirective.AppendParameter(lexeme.Value()); err != nil {
 		return core.japiError(err.Error(), lexeme.Begin())
 	}
